@@ -162,6 +162,8 @@ package expr
 //@   ensures* bases.not.shared: len(result.Bases) == len(old(att.Bases)) && (len(old(att.Bases)) > 0 ==> fresh(result.Bases))
 //@   loop 1 invariant made: len(duppedBases) == len(old(att.Bases)) && (len(old(att.Bases)) > 0 ==> fresh(duppedBases)) && dupper != nil && fresh(dupper) && dupper.uts != nil && dupper.ats != nil && fresh(dupper.ats) && fresh(dupper.uts)
 //@   loop 1 invariant memo.only.copies: forall a *AttributeExpr :: inMap(dupper.ats, a) ==> sinceEntry(a)
+//@   modifies* cell(GeneratedResultTypes), whole(elems(load(GeneratedResultTypes))), utAttr
+//@   frameprop C13
 
 // ---- security requirement inheritance (C06) -------------------------------------------------
 
@@ -284,3 +286,57 @@ package expr
 //@ func (*AttributeExpr).Find
 //@   params a name
 //@   modifies nothing
+
+// ---- HTTP error table of an endpoint (C05) ---------------------------------------------------
+// "The HTTP response uses the status code the design assigns to that error": the per-endpoint table is built
+// in Prepare from the method's own mappings, then the service's, then the API's. Copies keep the name and
+// the status; and the inheritance pass never appends an error whose name the table already holds (the
+// method's own mapping wins; no name is mapped twice).
+//@ func DupMappedAtt
+//@   params ma
+//@   locals nameMap reverseMap
+//@   ensures fresh: result != nil && fresh(result)
+//@   loop 1 invariant own: nameMap != nil && fresh(nameMap) && reverseMap != nil && fresh(reverseMap)
+//@   loop 2 invariant own: nameMap != nil && fresh(nameMap) && reverseMap != nil && fresh(reverseMap)
+//@   modifies cell(GeneratedResultTypes), whole(elems(load(GeneratedResultTypes))), utAttr
+//@ func (*HTTPResponseExpr).Dup
+//@   params r
+//@   property C05
+//@   ensures* same.status: result != nil && fresh(result) && result.StatusCode == old(r.StatusCode) && result.ContentType == old(r.ContentType) && result.Description == old(r.Description)
+//@   modifies cell(GeneratedResultTypes), whole(elems(load(GeneratedResultTypes))), utAttr
+//@ func (*HTTPErrorExpr).Dup
+//@   params e
+//@   property C05
+//@   ensures* same.error: result != nil && fresh(result) && result.Name == old(e.Name) && result.ErrorExpr == old(e.ErrorExpr) && result.Response != nil && fresh(result.Response) && result.Response.StatusCode == old(e.Response.StatusCode)
+//@   modifies cell(GeneratedResultTypes), whole(elems(load(GeneratedResultTypes))), utAttr
+//@ macro distinctErrNames(s) = forall i int, j int :: 0 <= i && i < j && j < len(s) ==> s[i].Name != s[j].Name
+//@ func (*HTTPEndpointExpr).Prepare
+//@   params e
+//@   opt forget-before-loop 3
+//@   locals methodErrors me se
+//@   property C05
+//@   requires e != nil
+//   -- own = ranged(3): the errors the method maps itself, as they stand when the inheritance pass starts
+//@   at fieldstore HTTPEndpointExpr.HTTPErrors assert* own.mapping.wins: forall i int :: 0 <= i && i < len(ranged(3)) ==> ranged(3)[i].Name != value[len(value) - 1].Name
+//@   at fieldstore HTTPEndpointExpr.HTTPErrors assert* table.only.grows: len(value) == len(object.HTTPErrors) + 1 && (forall i int :: 0 <= i && i < len(object.HTTPErrors) ==> value[i] == object.HTTPErrors[i])
+//@   loop 3 invariant collected: ranged(3).arr <= alloc() && methodErrors != nil && (forall i int :: 0 <= i && i <= rangeindex#3 ==> inMap(methodErrors, ranged(3)[i].Name))
+//@   loop 4 invariant own.in.M: methodErrors != nil && (forall i int :: 0 <= i && i < len(ranged(3)) ==> inMap(methodErrors, ranged(3)[i].Name))
+//@   loop 5 invariant not.own: methodErrors != nil && (forall i int :: 0 <= i && i < len(ranged(3)) ==> inMap(methodErrors, ranged(3)[i].Name) && ranged(3)[i].Name != me.Name)
+//@   loop 6 invariant not.own: methodErrors != nil && (forall i int :: 0 <= i && i < len(ranged(3)) ==> inMap(methodErrors, ranged(3)[i].Name) && ranged(3)[i].Name != me.Name)
+//@   loop 7 invariant own.in.M: methodErrors != nil && (forall i int :: 0 <= i && i < len(ranged(3)) ==> inMap(methodErrors, ranged(3)[i].Name))
+//@   loop 8 invariant own.in.M: methodErrors != nil && (forall i int :: 0 <= i && i < len(ranged(3)) ==> inMap(methodErrors, ranged(3)[i].Name))
+//@   loop 9 invariant own.in.M: methodErrors != nil && (forall i int :: 0 <= i && i < len(ranged(3)) ==> inMap(methodErrors, ranged(3)[i].Name))
+//   -- appending may write the table's backing array in place, beyond the entries it already holds
+//@   loop 4 modifies elems(*HTTPErrorExpr)
+//@   loop 4 invariant extends: ranged(3).arr <= alloc() && len(local(e).HTTPErrors) >= len(ranged(3)) && (local(e).HTTPErrors.arr != ranged(3).arr || local(e).HTTPErrors.off == ranged(3).off)
+//@   loop 5 modifies elems(*HTTPErrorExpr)
+//@   loop 5 invariant extends: ranged(3).arr <= alloc() && len(local(e).HTTPErrors) >= len(ranged(3)) && (local(e).HTTPErrors.arr != ranged(3).arr || local(e).HTTPErrors.off == ranged(3).off)
+//@   loop 6 modifies elems(*HTTPErrorExpr)
+//@   loop 6 invariant extends: ranged(3).arr <= alloc() && len(local(e).HTTPErrors) >= len(ranged(3)) && (local(e).HTTPErrors.arr != ranged(3).arr || local(e).HTTPErrors.off == ranged(3).off)
+//@   loop 7 modifies elems(*HTTPErrorExpr)
+//@   loop 7 invariant extends: ranged(3).arr <= alloc() && len(local(e).HTTPErrors) >= len(ranged(3)) && (local(e).HTTPErrors.arr != ranged(3).arr || local(e).HTTPErrors.off == ranged(3).off)
+//@   loop 8 modifies elems(*HTTPErrorExpr)
+//@   loop 8 invariant extends: ranged(3).arr <= alloc() && len(local(e).HTTPErrors) >= len(ranged(3)) && (local(e).HTTPErrors.arr != ranged(3).arr || local(e).HTTPErrors.off == ranged(3).off)
+//@   loop 9 modifies elems(*HTTPErrorExpr)
+//@   loop 9 invariant extends: ranged(3).arr <= alloc() && len(local(e).HTTPErrors) >= len(ranged(3)) && (local(e).HTTPErrors.arr != ranged(3).arr || local(e).HTTPErrors.off == ranged(3).off)
+//@   modifies all
